@@ -556,6 +556,21 @@ VF_ENUM(uniform_piece_sizes, 9 * 10 * 3, 9 * 10 * 24) {
   ctx.nontrivial(std::to_string(idx));
 }
 
+// A long run of EQUAL integers on one link: with encryption every one of them must look different on the wire, also the 256th and the
+// 512th (per-message counters and nonces that are exported into a cipher block must stay injective beyond one octet).  All modes; 600 sends.
+VF_ENUM(equal_integers_long_run, 9 * 2, 9 * 6) {
+  size_t idx = ctx.c.raw(), ci = idx % NCFG, v = idx / NCFG; Cfg cfg = enum_cfg(ci); cfg.keyvar = (int)(v % 2);
+  Z val = v % 2 ? Z(7) : (Z(0x1234567) << 70) + Z((unsigned long)v); size_t runlen = 600;
+  Sim sim(ctx, cfg); sim.array_style = false; sim.drain_arr = 1; Link &l = sim.L(0, 1);
+  for (size_t i = 0; i < runlen && !ctx.failed; i++) { sim.send(l, std::vector<Z>(1, val), false, "equal"); if (i % 50 == 49) { sim.feed_op(l, l.pending, true); for (int q = 0; q < 60 && !ctx.failed; q++) sim.recv_op(1, S_DIR, 0, 0); } }
+  if (!ctx.failed) sim.finish();
+  sim.close_all();
+  ctx.count("integers_delivered", (int64_t)sim.ndelivered);
+  ctx.label(std::string("ep:") + cfg.ep()); ctx.label(std::string("mode:") + MODE_NAME[cfg.mode]);
+  ctx.desc << cfg.ep() << "/" << MODE_NAME[cfg.mode] << " " << runlen << " sends of " << S(val) << " on one link";
+  ctx.nontrivial(std::to_string(idx));
+}
+
 // Every catalogue fault at every byte offset / frame of a short exchange, on a fresh link (first frame carries
 // sequence number 1) and on an established link (one integer delivered before the fault).
 static const size_t FAULT_B = 16;
